@@ -14,6 +14,7 @@
 // independent long-double closed form / balance residual / monotone chains.
 #include "Abundances.hpp"
 #include "ChargeTransferRates.hpp"
+#include "DensitySubGrid.hpp"
 #include "IonizationStateCalculator.hpp"
 #include "IonizationVariables.hpp"
 #include "LineCoolingData.hpp"
@@ -184,9 +185,9 @@ void gen_spectrum(VCase &c) {
                  24.6 * 1.60217662e-19 / PLANCK}); // DensityGrid.hpp
 }
 
-double gen_flux() {
+double gen_flux(bool typical = false) {
   // 23 decades plus "no photon reached this cell"
-  switch (vr::weighted({2, 14, 2, 2})) {
+  switch (typical ? vr::weighted({1, 6, 1, 8}) : vr::weighted({2, 14, 2, 2})) {
   case 0:
     return 0.;
   case 1:
@@ -248,10 +249,10 @@ void gen_abundances(VCase &c, int he) {
   c.D("AHe", AHe).D("Ametal", m);
 }
 
-VCase gen_cell(int he) {
+VCase gen_cell(int he, bool typical_flux = false) {
   VCase c;
   gen_spectrum(c);
-  c.D("JH", gen_flux());
+  c.D("JH", gen_flux(typical_flux));
   c.D("n", gen_density());
   c.D("T", gen_temperature());
   gen_abundances(c, he);
@@ -283,6 +284,32 @@ std::string check_fractions(const IonizationVariables &v) {
   return "";
 }
 
+// hydrogen-only gas: x must solve  n alpha (1-x)^2 = x J  (J = 0: x = 1)
+std::string check_hydrogen(double x, bool noflux, LD J, LD na, VResult &r) {
+  const LD xr = xH_ref(noflux ? 0.L : J, na);
+  if (noflux) {
+    if (x != 1.)
+      return fmt("no ionizing radiation but neutral fraction %.17g != 1", x);
+  } else if (x > 1.0000001e-14) { // not on the documented floor
+    const LD res = na * (1.L - x) * (1.L - x) - x * J;
+    if (fabsl(res) > 1e-9L * fmaxl(na, x * J))
+      return fmt("hydrogen balance residual %Lg > 1e-9*max(n alpha=%Lg, x J=%Lg)"
+                 " for x=%.17g (reference %.17Lg, C=%Lg)",
+                 res, na, (LD)x * J, x, xr, J / na);
+    if (fabsl(x - xr) > 1e-9L * xr)
+      return fmt("hydrogen neutral fraction %.17g differs from the closed form "
+                 "%.17Lg (C=%Lg)",
+                 x, xr, J / na);
+  } else {
+    r.label("on-floor");
+    if (xr > 1.0001e-14L)
+      return fmt("neutral fraction on the 1e-14 floor although the balance "
+                 "gives %.17Lg",
+                 xr);
+  }
+  return "";
+}
+
 void classify(const In &s, const Est &e, VResult &r) {
   r.label(s.AHe > 0. ? "He-present" : "H-only");
   if (s.n == 0.)
@@ -307,24 +334,6 @@ void classify(const In &s, const Est &e, VResult &r) {
     allzero = allzero && s.Am[i] == 0.;
   if (allzero)
     r.label("no-metals");
-}
-
-// matchers of defect classes found by this check (see known_findings.json)
-void known_class(const In &s, const Est &e, const IonizationVariables &v,
-                 VResult &r) {
-  // (a) the H/He solver short-cuts to "fully neutral" for 0 < jH < 1e-20; the
-  //     electron density is then exactly 0 and the C and Ne stage ratios are
-  //     x/0 -> NaN
-  if (s.AHe > 0. && s.JH > 0. && e.jfac * e.j[ION_H_n] < 1e-20 && s.n > 0.) {
-    r.known = "neutral_shortcut_zero_electrons";
-    return;
-  }
-  // (b) the quadratic for the H / He neutral fraction cancels for a nearly
-  //     neutral gas: result 1 + O(1e-9)
-  const double h0 = v.get_ionic_fraction(ION_H_n),
-               he0 = v.get_ionic_fraction(ION_He_n);
-  if (s.AHe > 0. && ((h0 > 1. && h0 < 1. + 1e-6) || (he0 > 1. && he0 < 1. + 1e-6)))
-    r.known = "neutral_fraction_quadratic_cancellation";
 }
 
 // ------------------------------------------------------------ oracles
@@ -352,36 +361,11 @@ VResult o_state(const VCase &c) {
             "computation was requested",
             s.T, v.get_temperature());
   // hydrogen-only gas: the neutral fraction solves the balance equation
-  if (m.empty() && s.AHe == 0. && s.n > 0.) {
-    const LD J = (LD)e.jfac * (LD)e.j[ION_H_n];
-    const LD na = (LD)s.n * alphaH_ref(s.T);
-    const LD xr = xH_ref(J, na);
-    if (s.JH == 0.) {
-      if (x != 1.)
-        m = fmt("no ionizing radiation but neutral fraction %.17g != 1", x);
-    } else if (x > 1.0000001e-14) { // not on the documented floor
-      const LD res = na * (1.L - x) * (1.L - x) - x * J;
-      if (fabsl(res) > 1e-9L * fmaxl(na, x * J))
-        m = fmt("hydrogen balance residual %Lg > 1e-9*max(n alpha=%Lg, x J=%Lg)"
-                " for x=%.17g (reference %.17Lg, C=%Lg)",
-                res, na, (LD)x * J, x, xr, J / na);
-      else if (fabsl(x - xr) > 1e-9L * xr)
-        m = fmt("hydrogen neutral fraction %.17g differs from the closed form "
-                "%.17Lg (C=%Lg)",
-                x, xr, J / na);
-    } else {
-      r.label("on-floor");
-      if (xr > 1.0001e-14L)
-        m = fmt("neutral fraction on the 1e-14 floor although the balance "
-                "gives %.17Lg",
-                xr);
-    }
-  }
-  if (!m.empty()) {
+  if (m.empty() && s.AHe == 0. && s.n > 0.)
+    m = check_hydrogen(x, s.JH == 0., (LD)e.jfac * (LD)e.j[ION_H_n],
+                       (LD)s.n * alphaH_ref(s.T), r);
+  if (!m.empty())
     r.fail(m);
-    // NaN C/Ne fractions when the H/He solver short-cuts to "fully neutral"
-    known_class(s, e, v, r);
-  }
   return r;
 }
 
@@ -421,10 +405,8 @@ VResult o_temperature(const VCase &c) {
   std::string m = check_fractions(v);
   if (m.empty() && !(std::isfinite(T) && T >= 500. && T <= 30000.))
     m = fmt("temperature %.17g outside the documented bounds [500 K, 30000 K]", T);
-  if (!m.empty()) {
+  if (!m.empty())
     r.fail(m);
-    known_class(s, e, v, r);
-  }
   return r;
 }
 
@@ -600,8 +582,103 @@ VCase gen_chain() {
   return c;
 }
 
+
+// (4) the call site of the task-based algorithm: a whole subgrid, the
+//     normalisation L / (total weight * cell volume) computed by the code, the
+//     temperature computation switched on or off
+VResult o_subgrid(const VCase &c) {
+  VResult r;
+  const In s0 = unpack(c);
+  const Est e0 = estimators(s0);
+  classify(s0, e0, r);
+  const bool flag = c.i("do_temperature") != 0;
+  const int loop = (int)c.i("loop"), minloop = (int)c.i("minloop");
+  const bool active = flag && loop > minloop;
+  r.label(active ? "temperature-on" : (flag ? "temperature-too-early" : "temperature-off"));
+  const double side = c.d("side"), totweight = c.d("totweight");
+  double box[6] = {c.d("anchor", 0), c.d("anchor", 1), c.d("anchor", 2),
+                   side, side, 2. * side};
+  DensitySubGrid sub(box, CoordinateVector< int_fast32_t >(1, 1, 2));
+  const double V = side * side * side;
+  // luminosity such that L / (totweight V) is the generated normalisation
+  const double L = e0.jfac * totweight * V;
+  Abundances ab(s0.AHe, s0.Am[0], s0.Am[1], s0.Am[2], s0.Am[3], s0.Am[4]);
+  TemperatureCalculator tc(flag, (uint_fast32_t)minloop, L, ab, 1e-3, 100, 0., 0.,
+                           0.75, 0., 4000., LC(), RR(), CT(), nullptr);
+  In s[2] = {s0, s0};
+  s[1].n = c.d("n2");
+  s[1].T = c.d("T2");
+  const double wscale = c.d("wscale2"); // the second cell saw a different flux
+  int k = 0;
+  for (auto it = sub.begin(); it != sub.end(); ++it, ++k) {
+    Est e = e0;
+    if (k == 1) {
+      for (int i = 0; i < NUMBER_OF_IONNAMES; ++i)
+        e.j[i] *= wscale;
+      e.hH *= wscale;
+      e.hHe *= wscale;
+    }
+    fill(it.get_ionization_variables(), s[k], e);
+  }
+  if (k != 2) {
+    r.fail(fmt("subgrid has %d cells instead of 2", k));
+    return r;
+  }
+  try {
+    tc.calculate_temperature((uint_fast32_t)loop, totweight, sub);
+  } catch (const VerifAbort &a) {
+    r.fail("subgrid temperature/ionization calculation aborted: " + a.msg);
+    return r;
+  }
+  k = 0;
+  for (auto it = sub.begin(); it != sub.end(); ++it, ++k) {
+    const IonizationVariables &v = it.get_ionization_variables();
+    const double x = v.get_ionic_fraction(ION_H_n), T = v.get_temperature();
+    if (s[k].JH > 0. && s[k].n > 0. && x > 1e-12 && x < 1. - 1e-12)
+      r.nontrivial = true;
+    std::string m = check_fractions(v);
+    if (m.empty()) {
+      if (active) {
+        if (!(std::isfinite(T) && T >= 500. && T <= 30000.))
+          m = fmt("temperature %.17g outside [500 K, 30000 K]", T);
+      } else if (T != s[k].T)
+        m = fmt("temperature computation disabled but the temperature changed "
+                "from %.17g to %.17g",
+                s[k].T, T);
+      else if (s0.AHe == 0. && s[k].n > 0.) {
+        // the normalisation the code must have used: L / (totweight V)
+        const LD jH = (LD)e0.jfac * (LD)e0.j[ION_H_n] * (k == 1 ? (LD)wscale : 1.L);
+        m = check_hydrogen(x, !(jH > 0.L), jH, (LD)s[k].n * alphaH_ref(s[k].T), r);
+      }
+    }
+    if (!m.empty()) {
+      r.fail(fmt("cell %d: ", k) + m);
+      return r;
+    }
+  }
+  return r;
+}
+
+VCase gen_subgrid_case() {
+  VCase c = gen_cell(0, vr::coin(0.3));
+  c.I("do_temperature", vr::coin(0.5) ? 1 : 0);
+  const int minloop = (int)vr::irange(0, 5);
+  c.I("minloop", minloop);
+  // the comparison is "loop > minimum": make the boundary frequent
+  c.I("loop", vr::coin(0.5) ? minloop + vr::irange(0, 1) : vr::irange(0, 10));
+  c.D("side", std::pow(10., vr::uni(13., 18.)));
+  c.D("anchor", {vr::uni(-1e17, 1e17), vr::uni(-1e17, 1e17), vr::uni(-1e17, 1e17)});
+  c.D("totweight", std::pow(10., vr::uni(2., 8.)));
+  c.D("n2", gen_density());
+  c.D("T2", gen_temperature());
+  c.D("wscale2", vr::coin(0.2) ? 0. : std::pow(10., vr::uni(-6., 6.)));
+  return c;
+}
+
 VCase gen_temperature_case() {
-  VCase c = gen_cell(0);
+  // half of the cells get H II region fluxes: that is where the iteration
+  // ends between the clamps
+  VCase c = gen_cell(0, vr::coin(0.5));
   c.D("eps", vr::coin(0.8) ? 1e-3 : vr::pick(std::vector<double>{1e-2, 1e-5}));
   c.I("maxit", vr::coin(0.8) ? 100 : vr::irange(1, 30));
   // PAH and cosmic-ray heating are optional extras (default off)
@@ -626,7 +703,7 @@ int main(int argc, char **argv) {
       "10^U(4,12) m^-3; T in 10^U(2,5) K; He abundance {0, 0.1, U(0,0.15), "
       "1e-10, 1e-3, 0.15}; metal abundances {0, Lexington, 10^U(-8,-3)}. "
       "Non-trivial = J_H>0, n>0 and 1e-12 < x_H < 1-1e-12.";
-  props.push_back({"state_physical", 3000000, [] { return gen_cell(0); }, o_state,
+  props.push_back({"state_physical", 2000000, [] { return gen_cell(0); }, o_state,
                    dom + " Oracle: no abort, all ionic fractions finite and in "
                          "[-1e-12,1+1e-12], tracked stages per metal sum to <= "
                          "1+1e-12, temperature untouched; hydrogen-only: balance "
@@ -663,5 +740,18 @@ int main(int argc, char **argv) {
                          "abort, fractions as above, temperature finite and in "
                          "[500 K, 30000 K].",
                    {{"He-present", 0.3}, {"T-interior", 0.05}}});
+  props.push_back({"subgrid_call_site", 300000, gen_subgrid_case, o_subgrid,
+                   dom + " Two-cell DensitySubGrid (cell side 10^U(13,18) m, total "
+                         "weight 10^U(2,8), luminosity chosen so that L/(totweight V) "
+                         "gives the generated J_H; second cell with its own n, T and a "
+                         "flux scaled by 10^U(-6,6) or 0) through TemperatureCalculator::"
+                         "calculate_temperature(loop, totweight, subgrid) with the "
+                         "temperature computation on/off and loop around the minimum "
+                         "iteration number. Oracle: no abort, fractions physical, T in "
+                         "[500 K, 30000 K] when the computation is active and bit-identical "
+                         "to the input otherwise.",
+                   {{"temperature-on", 0.1},
+                    {"temperature-off", 0.2},
+                    {"temperature-too-early", 0.1}}});
   return vr::vmain(argc, argv, "C06", props);
 }
